@@ -232,6 +232,7 @@ def check(prop, tier, seed, replay=None):
         "single process, no crashes or I/O errors",
     ]
     if replay:
+        run.is_replay = True
         with open(replay) as fh:
             rp = json.load(fh)["replay"]
         if rp["campaign"] == "random":
